@@ -644,6 +644,44 @@ Proof.
   destruct (datatype_classes_disjoint k1 k2 d1 d2 B1 B2 N) as [NE _]. exact (NE E).
 Qed.
 
+(* ---- TKeyClassRange over the generated classes ---- *)
+(* the classes whose TKeys are made by storage.NewTKey (all but the legacy imagetile key) *)
+Definition has_header (kc : kclass) : Prop :=
+  match kc_shape kc with KLegacy _ => False | _ => True end.
+Definition has_headerb (kc : kclass) : bool :=
+  match kc_shape kc with KLegacy _ => false | _ => true end.
+
+Lemma tkey_of_header kc d : has_header kc -> exists body, tkey_of kc d = new_tkey (kc_class kc) body.
+Proof. unfold has_header, tkey_of. destruct (kc_shape kc); intro H; try contradiction; eauto. Qed.
+
+(* TKeyClassRange(class of kc) of instance i holds exactly the keys of instance i made by a constructor of that class *)
+Lemma class_range_generated kc kc' i i' d v c m :
+  id_ok i -> id_ok i' -> byte_ok (kc_class kc) -> byte_ok (kc_class kc') -> has_header kc' ->
+  (in_range (fst (tkey_class_range i (kc_class kc))) (snd (tkey_class_range i (kc_class kc)))
+            (data_key i' (tkey_of kc' d) v c m) <-> (i' = i /\ kc_class kc' = kc_class kc)).
+Proof.
+  intros Hi Hi' B B' H. destruct (tkey_of_header kc' d H) as [body ->]. now apply class_range.
+Qed.
+
+(* every table the translator produced (this list is written by hand: a new datatype package adds a table to
+   Gen/KeyClasses.v and must be added here) *)
+Definition all_keyclasses (ext : bytes) : list kclass :=
+  keyclasses_keyvalue ++ keyclasses_neuronjson ++ keyclasses_annotation ++ keyclasses_labelmap ++
+  keyclasses_imageblk ++ keyclasses_imagetile ++ keyclasses_labelarray ++ keyclasses_labelblk ++
+  keyclasses_labelsz ++ keyclasses_labelvol ++ keyclasses_roi ++ keyclasses_tarsupervoxels ext.
+
+Lemma all_keyclasses_byte_ok ext kc : In kc (all_keyclasses ext) ->
+  byte_ok (kc_class kc) /\ (has_header kc \/ kc_shape kc = kc_shape kc_imagetile_NewTKey).
+Proof.
+  intro H.
+  assert (F : forallb (fun k => (kc_class k <? 256) &&
+                match kc_shape k with KLegacy n => n =? 21 | _ => true end) (all_keyclasses ext) = true)
+    by reflexivity.
+  rewrite forallb_forall in F. specialize (F kc H). rewrite andb_true_iff in F.
+  destruct F as [F1 F2]. split; [unfold byte_ok; now apply N.ltb_lt|].
+  unfold has_header. destruct (kc_shape kc); auto. right. apply N.eqb_eq in F2. now subst.
+Qed.
+
 (* ---- SplitKey / MergeKey ---- *)
 Lemma merge_split k u v : split_key k = Ok (u, v) -> merge_key u v = k.
 Proof.
